@@ -112,6 +112,17 @@ AvpBigInputs ==
   \cup
   { InitAvps(Rec(1, 6 + n - 1, 0, 7, [i \in 1..n |-> i % 256])) : n \in {250, 251, 506, 507, 1017} }
 
+\* the header of one record over the product of its fields: flag bits (M, H, reserved), vendor id, attribute
+\* type (assigned kinds of every shape, unassigned numbers), payload length 0..4 -- as the FIRST record of a
+\* control message (where a Message Type is expected), as the second one, and as a bare list
+RecProdInputs ==
+  { LET rec == Rec(f, 6 + n, v, t, Pattern(pat, n))
+    IN CASE wrap = "first"  -> InitMessage(CtlExact(rec \o RecHost), StrictOpts, 0)
+         [] wrap = "second" -> InitMessage(CtlExact(RecMT \o rec \o RecHost), StrictOpts, 0)
+         [] OTHER           -> InitAvps(rec \o RecHost)
+    : f \in {0, 1, 2, 3, 61, 62}, v \in {0, 9}, t \in {0, 1, 7, 12, 13, 20, 26, 29, 34, 36, 39, 40, 65535},
+      n \in 0..4, pat \in {"text"}, wrap \in {"first", "second", "bare"} }
+
 \* every AVP kind (and two unassigned numbers) at payload length 0 .. min+2, three contents
 KindInputs ==
   { IF mode = "payload" THEN InitPayload(Pattern(pat, n), t, 0, n)
@@ -174,6 +185,7 @@ Inputs ==
     [] Family = "ctllen"  -> CtlLenInputs
     [] Family = "avprec"  -> AvpRecInputs \cup AvpBigInputs
     [] Family = "kinds"   -> KindInputs
+    [] Family = "recprod" -> RecProdInputs
     [] Family = "loop3"   -> LoopInputs(3)
     [] Family = "loop4"   -> LoopInputs(4)
     [] Family = "data"    -> DataInputs
